@@ -17,10 +17,8 @@ from .common import cZ, cbool, cstr, clist, copt
 THEOREMS = [
     "decimal_lexical", "decimal_exact", "decimal_no_exponent",
     "bool_roundtrip", "bool_lexical", "bool_reads_all_lexical_forms",
-]
-THEOREMS_TODO = [
-    "time_round_half_up", "zone_exact", "time_roundtrip", "date_roundtrip",
-    "datetime_roundtrip", "datetime_carry", "malformed_raises",
+    "time_round_half_up", "scanned_fields_lexical", "zone_exact", "zone_offset",
+    "time_roundtrip", "date_roundtrip", "datetime_roundtrip", "datetime_carry", "malformed_raises",
 ]
 
 PRE = "From SV Require Import Lib.Base C06.Decimal C06.DateTime C06.Floats."
